@@ -173,7 +173,7 @@ fn big_output_cases(ctx: &Ctx) -> Vec<(Case, bool)> {
 }
 
 pub fn run(ctx: &Ctx) {
-    ctx.set_rule("failing programs by construction: 46 failing expressions x 42 syntactic slots (+ return slots) and 37 failing statements x 4 positions, x call wrappers (named, anonymous, method, callback, builtin argument) at depth 0..5, jumps outside their construct, every lexical / parse error class; plus random failing programs from the tape decoder (hostile profile) in random layouts; oracle: stdout = the reference's output up to the failure, exit 103, stderr line 1 `<path>:<l>:<c>: [in '<innermost function>': ]<message>` with l within the script, no internal identifier, Stacktrace with exactly one line per active call at the position of that call, innermost first, ending at <root>; successful programs: empty stderr, exit 0. Non-trivial = raised at call depth >= 1 or at a position other than a top-level expression statement; distinct = distinct source texts");
+    ctx.set_rule("failing programs by construction: 46 failing expressions x 42 syntactic slots (+ return slots) and 37 failing statements x 4 positions, x call wrappers (named, anonymous, method, callback, builtin argument) at depth 0..5, jumps outside their construct, every lexical / parse error class; plus random failing programs from the tape decoder (hostile profile) in random layouts; oracle: stdout = the reference's output up to the failure, exit 103, stderr line 1 `<path>:<l>:<c>: [in '<innermost function>': ]<message>` with l within the script, no internal identifier, Stacktrace with exactly one line per active call at the position of that call, innermost first, ending at <root>; successful programs: empty stderr, exit 0; recursion through three self-call sites; a print that fails after 64 KiB and complete prints of up to 600 KB before a failure. Non-trivial = raised at call depth >= 1 or at a position other than a top-level expression statement; distinct = distinct source texts");
     ctx.replay_corpus(None);
     let built = catalogue(ctx.tier == Tier::Thorough);
     let mut cases = vec![];
@@ -193,7 +193,7 @@ pub fn run(ctx: &Ctx) {
     cfg.sloppy = 6;
     let mut big = gen::GenCfg::big();
     big.sloppy = 3;
-    let n = ctx.n(25_000, 1_000_000);
+    let n = ctx.n(25_000, 4_000_000);
     let via = if ctx.tier == Tier::Quick { Via::Cli } else { Via::Fast };
     ctx.proptest_tapes("random_failing", n, 700, via, None, |t| {
         let density = if t.chance(1, 2) { 12 } else { 0 };
